@@ -30,10 +30,11 @@ import warnings
 from typing import Any, Callable, Optional
 
 from harness import translate_pyexpr
-from harness.common import REPO, MachineryError, Run, driver_ask, lean_check, use_repo
+from harness.common import REPO, VERIF, MachineryError, Run, driver_ask, lean_check, use_repo
 from harness.gen import pygen, pyprobes
 
 PID = "C08"
+PROPOSED = VERIF / "proposed_findings" / "C08.json"
 
 TRUSTED = [
     "Lean 4.33.0 kernel; axioms ⊆ {propext, Classical.choice, Quot.sound} (audited per run)",
@@ -70,7 +71,9 @@ class _Norm(ast.NodeTransformer):
     def visit_JoinedStr(self, node: ast.JoinedStr) -> Any:
         self.generic_visit(node)
         if all(isinstance(v, ast.Constant) and isinstance(v.value, str) for v in node.values):
-            return ast.Constant(value="".join(v.value for v in node.values))
+            c = ast.Constant(value="".join(v.value for v in node.values))
+            c._from_fstring = True          # not a field: invisible to ast.dump
+            return c
         return node
 
 
@@ -109,6 +112,29 @@ def _same(a: Any, b: Any) -> bool:
     return type(a) is type(b) and a == b
 
 
+def _is_fstring(n: Any) -> bool:
+    return isinstance(n, ast.JoinedStr) or (isinstance(n, ast.Constant) and getattr(n, "_from_fstring", False))
+
+
+def _fstringish(n: Any) -> bool:
+    return isinstance(n, ast.JoinedStr) or (isinstance(n, ast.Constant) and isinstance(n.value, str))
+
+
+def _field_values(n: Any) -> list:
+    """the expressions of the replacement fields, in order, format specifications included"""
+    out: list = []
+    if isinstance(n, ast.JoinedStr):
+        for v in n.values:
+            if isinstance(v, ast.FormattedValue):
+                out.append(v.value)
+                out += _field_values(v.format_spec)
+    return out
+
+
+def _field_exprs(n: Any) -> list[str]:
+    return [ast.dump(e) for e in _field_values(n)]
+
+
 def named_pattern(w: Any, g: Any) -> Optional[str]:
     """recognise the shape of a difference so that a known defect has ONE signature"""
     if isinstance(w, ast.Lambda):
@@ -122,48 +148,106 @@ def named_pattern(w: Any, g: Any) -> Optional[str]:
         if moved > 0 and len(g.kwonlyargs) - len(w.kwonlyargs) == moved and \
                 [a.arg for a in w.args[len(g.args):]] == [a.arg for a in g.kwonlyargs[:moved]]:
             return "defaults-become-keyword-only"
-    if isinstance(w, ast.Constant) and isinstance(g, ast.Constant) and isinstance(w.value, str) \
-            and isinstance(g.value, str) and "".join(w.value.split()) == "".join(g.value.split()):
-        return "string-whitespace-lost"
     if isinstance(w, ast.Constant) and isinstance(g, ast.Constant) and not isinstance(w.value, (str, bytes, bool)) \
             and isinstance(w.value, (int, float, complex)) and isinstance(g.value, (int, float, complex)):
         return "numeric-literal-value"
-    if isinstance(w, ast.Constant) and isinstance(w.value, str) and ("{" in w.value or "}" in w.value) \
-            and isinstance(g, ast.JoinedStr):
-        return "fstring-brace-escape-kept"
-    if isinstance(w, ast.JoinedStr) and isinstance(g, ast.JoinedStr):
-        def skel(j: ast.JoinedStr, unbrace: bool) -> list:
-            out: list = []
-            for v in j.values:
-                if isinstance(v, ast.Constant) and isinstance(v.value, str):
-                    t = "".join(v.value.split())
-                    if unbrace:
-                        t = t.replace("{{", "{").replace("}}", "}")
-                    if t:
-                        if out and isinstance(out[-1], str):
-                            out[-1] += t
-                        else:
-                            out.append(t)
-                else:
-                    out.append(ast.dump(v))
-            return out
-        if skel(w, False) == skel(g, False):
-            return "string-whitespace-lost"
-        if skel(w, False) == skel(g, True):
-            return "fstring-brace-escape-kept"
-        wd = [v for v in w.values if not (isinstance(v, ast.Constant) and str(v.value).rstrip().endswith("="))]
-        if len(wd) < len(w.values) and len(wd) == len([v for v in g.values]):
-            return "fstring-debug-specifier-lost"
-    if isinstance(w, ast.Compare) and len(w.ops) > 1 and isinstance(g, ast.Compare) and len(g.ops) == 1:
-        return "comparison-chain-split"
-    if isinstance(w, ast.UnaryOp) and isinstance(w.op, ast.Not) and isinstance(w.operand, ast.Compare) \
-            and isinstance(g, ast.Compare):
-        return "not-binds-tighter-than-comparison"
-    if isinstance(w, ast.IfExp) and not isinstance(g, ast.IfExp):
-        return "conditional-expression-regrouped"
-    if isinstance(g, ast.IfExp) and not isinstance(w, ast.IfExp):
-        return "conditional-expression-regrouped"
+    if (_is_fstring(w) or _is_fstring(g)) and _fstringish(w) and _fstringish(g):
+        # same replacement-field expressions in the same order, only literal text / `=` specifier differ
+        if _field_exprs(w) == _field_exprs(g):
+            return "fstring-literal-text-from-tokens"
+        extra = [e for e in _field_values(g) if isinstance(e, (ast.Dict, ast.Set))]
+        lit = "".join(v.value for v in ([w] if isinstance(w, ast.Constant) else w.values)
+                      if isinstance(v, ast.Constant) and isinstance(v.value, str))
+        if extra and ("{" in lit or "}" in lit) and len(_field_values(g)) - len(_field_values(w)) == len(extra):
+            return "fstring-doubled-brace-read-as-field"
     return None
+
+
+# ---- the top level of a constraint is NOT plain Python: `formula_disjunction / formula_conjunction /
+# formula_comparison / expr` of FandangoParser.g4 split it before the Python expression grammar sees it.
+# Three precedence differences to CPython live in that grammar (they cannot be repaired in the visitors);
+# each is recognised ONLY when what Fandango built is a pure regrouping of CPython's reading (the same
+# token sequence, other parentheses) and the first difference, reached through and/or only, has the shape
+# of that class.  Anything else at a constraint site keeps its generic signature.
+
+def _tokens_without_parens(n: ast.AST) -> Optional[list[str]]:
+    try:
+        toks = tokenize.generate_tokens(io.StringIO(ast.unparse(n)).readline)
+        return [t.string for t in toks if t.type not in (tokenize.NEWLINE, tokenize.NL, tokenize.ENDMARKER)
+                and t.string not in ("(", ")")]
+    except Exception:  # noqa
+        return None
+
+
+def _strip_nots(n: ast.AST) -> tuple[int, ast.AST]:
+    k = 0
+    while isinstance(n, ast.UnaryOp) and isinstance(n.op, ast.Not):
+        n, k = n.operand, k + 1
+    return k, n
+
+
+def constraint_toplevel_class(want: ast.AST, got: ast.AST) -> Optional[tuple[str, str, str]]:
+    names = lambda n: {x.id for x in ast.walk(n) if isinstance(x, ast.Name)}  # noqa: E731
+    invented = sorted(names(got) - names(want))
+    if invented and any(isinstance(x, ast.IfExp) for x in ast.walk(want)):
+        # visitFormula_comparison unparses the LIST visitChildren returns for `X if C else Y`: one name `XCY`
+        return "formula-comparison-conditional-operand-garbled", _desc(want), f"invented name(s) {invented} in {_desc(got)}"
+    tw, tg = _tokens_without_parens(want), _tokens_without_parens(got)
+    if tw is None or tw != tg:
+        return None
+    w, g = want, got
+    while True:
+        if isinstance(w, ast.BoolOp) and isinstance(g, ast.BoolOp) and type(w.op) is type(g.op) \
+                and len(w.values) == len(g.values):
+            diff = [(a, b) for a, b in zip(w.values, g.values) if ast.dump(a) != ast.dump(b)]
+            if len(diff) != 1:
+                return None if not diff else ("toplevel-several-regroupings", _desc(w), _desc(g))
+            w, g = diff[0]
+            continue
+        break
+    cls = None
+    if isinstance(w, ast.IfExp) != isinstance(g, ast.IfExp):
+        cls = "toplevel-conditional-expression-regrouped"
+    else:
+        kw, cw = _strip_nots(w)
+        kg, cg = _strip_nots(g)
+        if kw > kg and isinstance(cw, ast.Compare) and isinstance(cg, ast.Compare):
+            cls = "toplevel-not-binds-tighter-than-comparison"
+        elif isinstance(w, ast.Compare) and isinstance(g, ast.Compare) and len(w.ops) > len(g.ops) == 1:
+            cls = "toplevel-comparison-chain-split"
+    if cls is None:
+        return None
+    return cls, _desc(w), _desc(g)
+
+
+# ---- FandangoLexer.g4's NUMBER has no `_` digit separators: at the top level of a spec, where statements
+# need no separator, `x = 1_000` is read as `x = 1` followed by the statement `_000`
+
+def underscore_split_reading(text: str) -> Optional[str]:
+    """the text with every numeric literal that contains `_` cut the way FandangoLexer cuts it, the rest
+    moved to a line of its own; None if there is no such literal"""
+    try:
+        toks = list(tokenize.generate_tokens(io.StringIO(text).readline))
+    except Exception:  # noqa
+        return None
+    lines = text.splitlines(keepends=True)
+    cut = False
+    for tk in reversed(toks):
+        if tk.type == tokenize.NUMBER and "_" in tk.string and tk.start[0] == tk.end[0]:
+            head = tk.string[:tk.string.index("_")]
+            while head:
+                try:
+                    if isinstance(ast.literal_eval(head), (int, float, complex)):
+                        break
+                except Exception:  # noqa
+                    pass
+                head = head[:-1]
+            if not head:
+                return None
+            ln = lines[tk.start[0] - 1]
+            lines[tk.start[0] - 1] = ln[:tk.start[1]] + head + "\n" + tk.string[len(head):] + ln[tk.end[1]:]
+            cut = True
+    return "".join(lines) if cut else None
 
 
 def first_diff(w: Any, g: Any, parent: str = "", field: str = "") -> Optional[tuple[str, str, str]]:
@@ -189,8 +273,6 @@ def first_diff(w: Any, g: Any, parent: str = "", field: str = "") -> Optional[tu
         if len(w) != len(g):
             sign = "-" if len(g) < len(w) else "+"
             extra = (w[len(g):] if len(g) < len(w) else g[len(w):])[0]
-            if sign == "+" and isinstance(extra, ast.stmt) and re.match(r"_\d", _desc(extra).split(": ", 1)[-1].strip("'\"")):
-                return "numeric-literal-underscore-splits", f"{len(w)} statements", f"{len(g)} statements ({_desc(extra)})"
             return f"{parent}.{field}:len{sign}", f"{len(w)} items", f"{len(g)} items ({_desc(extra)})"
         return None
     if w != g or type(w) is not type(g):
@@ -282,6 +364,11 @@ def tv_code(text: str, parser: str) -> dict:
     d = compare_modules(want, got)
     if d is None:
         return {"status": "ok"}
+    alt = underscore_split_reading(text)
+    if alt is not None:
+        alt_tree = cpython_module(alt)
+        if alt_tree is not None and compare_modules(alt_tree, got) is None:
+            d = ("numeric-literal-underscore-splits-statement", d[1], d[2])
     return {"status": "altered", "sig": d[0], "want": d[1], "got": d[2], "code_text": cs.code_text[:400]}
 
 
@@ -445,6 +532,8 @@ def tv_embedded(site: str, marked: str, holes: list[str], parser: str, variant: 
     d = first_diff(norm(want), norm(got))
     if d is None:
         return {"status": "ok", "text": text}
+    if site == "constraint":
+        d = constraint_toplevel_class(norm(want), norm(got)) or d
     return {"status": "altered", "sig": d[0], "want": d[1], "got": d[2], "text": text}
 
 
@@ -716,6 +805,8 @@ def corpus_file(run: Run, path: str, text: str, parser: str, stats: dict, fail: 
                 stats["formulas_not_plain"] = stats.get("formulas_not_plain", 0) + 1
                 continue
             d = first_diff(norm(want), norm(got))
+            if d:
+                d = constraint_toplevel_class(norm(want), norm(got)) or d
             run.case(["corpus-formula", path, real_span(fd)], True, None)
             if d:
                 sp = real_span(fd)
@@ -935,6 +1026,16 @@ def witness_replay() -> dict:
     return out
 
 
+def load_known(run: Run) -> None:
+    """findings proposed by this builder but not yet decided by the lead are treated exactly like
+    `known_findings.json` entries; `fixed` entries suppress nothing"""
+    if PROPOSED.exists():
+        for k in json.loads(PROPOSED.read_text()):
+            if k.get("property") == PID and k.get("status") == "open" and \
+                    not any(x.get("signature") == k.get("signature") for x in run.known):
+                run.known.append(k)
+
+
 class Failures:
     """first example per signature is shrunk and reported; the rest is counted"""
 
@@ -944,7 +1045,7 @@ class Failures:
         self.count: dict[str, int] = {}
 
     def add(self, site: str, d: tuple[str, str, str], replay: dict, shrinker: Optional[Callable[[str], str]] = None) -> None:
-        sig = f"C08/{d[0]}"
+        sig = f"C08/{site}:{d[0]}"
         self.count[sig] = self.count.get(sig, 0) + 1
         if sig in self.by_sig:
             return
@@ -960,7 +1061,7 @@ class Failures:
         self.by_sig[sig] = {"d": d, "replay": replay}
 
     def report(self) -> None:
-        for sig, e in self.by_sig.items():
+        for sig, e in sorted(self.by_sig.items()):
             d, rp = e["d"], e["replay"]
             what = (f"[{rp.get('kind')} site] Fandango accepts {rp.get('text', '')[:200]!r} but what it will run differs "
                     f"from CPython's reading: want {d[1]}, got {d[2]} [{self.count[sig]} case(s) with this signature]")
@@ -1033,6 +1134,7 @@ def replay(path: str) -> int:
 
 def main(tier: str) -> int:
     run = Run(PID, tier, "translation_validation")
+    load_known(run)
     use_repo()
     from harness.impl import pyfront as pf  # noqa: F401
     gen = translate_pyexpr.regenerate()
